@@ -37,7 +37,7 @@ impl Profile {
     pub const EFFECTS: Profile = Profile { effects: 8, scoping: 1, control: 2, cells: 2, iterators: 1, failing: 1, top: 8, depth: 3, free_dispatch: false };
     pub const CONTROL: Profile = Profile { effects: 2, scoping: 1, control: 8, cells: 1, iterators: 1, failing: 0, top: 8, depth: 3, free_dispatch: false };
     pub const CELLS: Profile = Profile { effects: 1, scoping: 2, control: 1, cells: 8, iterators: 1, failing: 2, top: 12, depth: 3, free_dispatch: false };
-    pub const ITERATORS: Profile = Profile { effects: 3, scoping: 1, control: 1, cells: 1, iterators: 8, failing: 0, top: 8, depth: 3, free_dispatch: false };
+    pub const ITERATORS: Profile = Profile { effects: 3, scoping: 1, control: 1, cells: 1, iterators: 8, failing: 1, top: 8, depth: 3, free_dispatch: false };
     pub const CONSTANTS: Profile = Profile { effects: 1, scoping: 2, control: 3, cells: 1, iterators: 1, failing: 3, top: 10, depth: 3, free_dispatch: false };
 }
 
@@ -226,12 +226,22 @@ impl<'a> Gen<'a> {
                 Ty::cell(a.or(b))
             }
             0 => self.gen_scalar_ty(),
-            1 => Ty::Tup(vec![self.gen_scalar_ty(), self.gen_scalar_ty()]),
+            1 => {
+                // pairs and triples (a pair is not a prefix of a triple)
+                let mut parts = vec![self.gen_scalar_ty(), self.gen_scalar_ty()];
+                if self.tape.chance(1, 3) {
+                    parts.push(self.gen_scalar_ty());
+                }
+                Ty::Tup(parts)
+            }
             2 => {
+                // one or two of the fields a, b, c (the same number of fields under other names is another type)
+                let names = ["a", "b", "c"];
+                let first = self.tape.below(3);
                 let mut fs = std::collections::BTreeMap::new();
-                fs.insert("a".to_string(), self.gen_scalar_ty());
+                fs.insert(names[first].to_string(), self.gen_scalar_ty());
                 if self.tape.bool() {
-                    fs.insert("b".to_string(), self.gen_scalar_ty());
+                    fs.insert(names[(first + 1 + self.tape.below(2)) % 3].to_string(), self.gen_scalar_ty());
                 }
                 Ty::Struct(fs)
             }
@@ -1625,6 +1635,35 @@ impl<'a> Gen<'a> {
 
     /// `match <array built along one route> { <other content> => .., <the same content, built along another route> => .., => .. }`:
     /// value arms compare arrays by content, whatever element type the array is labelled with
+    /// a tuple matched by value against tuples that agree with it on a prefix (one component more, one
+    /// less) before the equal one: tuples of different lengths are different values
+    fn match_tuple_by_value(&mut self, depth: usize, value: Option<&Ty>) -> Stmt {
+        self.label("match on a tuple by value among prefix tuples");
+        let n = 2 + self.tape.below(2);
+        let xs: Vec<Expr> = (0..n).map(|_| self.lit(&Ty::Int)).collect();
+        let scrutinee = if self.tape.bool() {
+            Expr::Tuple(xs.clone())
+        } else {
+            // built at run time
+            Expr::Tuple(xs.iter().map(|x| Expr::Bin("+", Box::new(x.clone()), Box::new(Expr::Int(0)))).collect())
+        };
+        let mut arms = vec![];
+        let mut longer = xs.clone();
+        longer.push(self.lit(&Ty::Int));
+        let shorter: Vec<Expr> = xs[..n - 1].to_vec();
+        for decoy in [longer, shorter] {
+            if self.tape.chance(2, 3) {
+                let cand = if decoy.len() == 1 { decoy[0].clone() } else { Expr::Tuple(decoy) };
+                let body = self.block(depth.saturating_sub(1), 1, value);
+                arms.push(Arm::Values(vec![cand], body));
+            }
+        }
+        let body = self.block(depth.saturating_sub(1), 1, value);
+        arms.push(Arm::Values(vec![Expr::Tuple(xs)], body));
+        arms.push(Arm::Other(self.block(depth.saturating_sub(1), 1, value)));
+        Stmt::Match(scrutinee, arms)
+    }
+
     fn match_array_by_value(&mut self, depth: usize, value: Option<&Ty>) -> Stmt {
         self.label("match on an array by value");
         let n = 1 + self.tape.below(3);
@@ -1672,6 +1711,9 @@ impl<'a> Gen<'a> {
     fn match_stmt(&mut self, depth: usize, value: Option<&Ty>) -> Stmt {
         if depth >= 1 && self.tape.chance(1, 8) {
             return self.match_array_by_value(depth, value);
+        }
+        if depth >= 1 && self.tape.chance(1, 10) {
+            return self.match_tuple_by_value(depth, value);
         }
         // `match (u, e) { t: (A, C) => .., t: (B, C) => .. }` with u a variable of type A|B: the static
         // type of the scrutinee is one tuple type, its run-time type one of two
